@@ -417,7 +417,10 @@ def add_mutation_test(rng, f, prefix="m", ops=("eq", "in", "item", "le", "ge"), 
 
     events.append(cmp_event())
     for _ in range(rng.randint(1, 3)):
-        events.append({"t": "mutate", "var": f"{prefix}x", "how": rng.choice(muts)})
+        how = rng.choice(muts)
+        if op in ("le", "ge") and rng.random() < 0.6:
+            how = "{var}.append(%d)" % rng.randint(0, 9) if op == "le" else "{var}.insert(0, -99)"  # pushes the bound further: the later comparison is the new extreme
+        events.append({"t": "mutate", "var": f"{prefix}x", "how": how})
         if repeated and rng.random() < 0.8:
             events.append(cmp_event())
     t = {"name": f"test_{prefix}{n0}", "events": events}
